@@ -112,6 +112,11 @@ func (c *conn) serveRequests() error {
 			if errors.Is(err, io.EOF) || errors.Is(err, io.ErrUnexpectedEOF) || strings.Contains(err.Error(), "unexpected EOF") {
 				return nil // connection is closed
 			}
+			if c.shutdownCtx.Err() != nil {
+				// the read was interrupted because the server is stopping:
+				// let the shutdown check above notify the client
+				continue
+			}
 			return fmt.Errorf("%s: error reading request: %w", op, err)
 		}
 
